@@ -321,6 +321,72 @@ pub fn c34_child(seed: u64, cases: u64) {
         });
         dump("sa", &show_script(&script), obs, n);
     }
+    c34_lww_rounds(&base, rounds);
     println!("HVDONE");
+}
+
+/// the last-writer-wins register: state kept with `last()` (= `reduce`) inside the atomic region - the
+/// Reduce arm of the code generator, which the simulator shares with production
+fn c34_lww_rounds(base: &Rng, rounds: u64) {
+    let mut flow = FlowBuilder::new();
+    let node = flow.process::<()>();
+    let (write_send, write_req) = node.sim_input::<i32, _, _>();
+    let (read_send, read_req) = node.sim_input::<i32, _, _>();
+    let atomic_write = write_req.atomic();
+    let register = atomic_write.clone().last();
+    let ack_recv = atomic_write.end_atomic().sim_output();
+    let resp_recv = sliced! {
+        let batch_of_req = use::batch(read_req, nondet!(/** the simulator decides */));
+        let latest = use::atomic(register, nondet!(/** atomic snapshot */));
+        batch_of_req.cross_singleton(latest.into_singleton())
+    }
+    .sim_output();
+    let compiled = flow.sim().compiled();
+    println!("HVREADY atomic_lww");
+    let show_v = |v: Option<i32>| v.map_or("-".to_string(), |x| x.to_string());
+    for r in 0..rounds {
+        let mut rng = base.fork(r);
+        // same scripts; distinct write values so that the value read identifies the write
+        let script: Vec<Step> = {
+            let mut k = 0;
+            c34_scripts(&mut rng, r).into_iter().map(|st| match st { Step::W(v) => { k += 1; Step::W(10 * k + v) } o => o }).collect()
+        };
+        let obs: Obs = Mutex::new(BTreeMap::new());
+        let (script_r, obs_r) = (&script, &obs);
+        let n = compiled.exhaustive(async || {
+            let mut tl: Vec<String> = vec![];
+            for st in script_r {
+                match st {
+                    Step::W(v) => {
+                        write_send.send(*v);
+                        tl.push(format!("w{v}"));
+                    }
+                    Step::R(i) => {
+                        read_send.send(*i);
+                        tl.push(format!("r{i}"));
+                    }
+                    Step::Ack => {
+                        let v = ack_recv.next().await;
+                        tl.push(format!("A{v}"));
+                    }
+                    Step::Resp => {
+                        let (i, s) = resp_recv.next().await;
+                        tl.push(format!("R{i}={}", show_v(s)));
+                    }
+                }
+            }
+            tl.push("end".into());
+            let acks: Vec<i32> = ack_recv.collect().await;
+            for v in acks {
+                tl.push(format!("A{v}"));
+            }
+            let resps: Vec<(i32, Option<i32>)> = resp_recv.collect().await;
+            for (i, s) in resps {
+                tl.push(format!("R{i}={}", show_v(s)));
+            }
+            note(obs_r, tl.join(","));
+        });
+        dump("sl", &show_script(&script), obs, n);
+    }
 }
 
